@@ -102,9 +102,10 @@ func (w *World) FuncNames() []string {
 }
 
 // Qualify turns a contract-file function designator into the ssa qualified name.
-//   "UpdateAssetValue"            -> "<pkg>.UpdateAssetValue"
-//   "(Keeper).Foo"                -> "(<pkg>.Keeper).Foo"
-//   "(*Keeper).Foo"               -> "(*<pkg>.Keeper).Foo"
+//
+//	"UpdateAssetValue"            -> "<pkg>.UpdateAssetValue"
+//	"(Keeper).Foo"                -> "(<pkg>.Keeper).Foo"
+//	"(*Keeper).Foo"               -> "(*<pkg>.Keeper).Foo"
 func Qualify(pkgPath, designator string) string {
 	d := strings.TrimSpace(designator)
 	if strings.HasPrefix(d, "(") {
